@@ -29,6 +29,15 @@ CHECKS = {
     'C01': dict(cat='proof', tech='Coq proof over translated kernels + exhaustive-to-a-bound correspondence', ref='DESIGN.md section 6, C01',
                 text='Theorems: any injective in-range layout gives read-own-write, frame and in-storage; row-major, Morton and Hilbert are such layouts for every extent vector with the library\'s own capacity expression ipow(round_pow2(max extent), N); the generated kernels compute exactly these index functions in both the NDEBUG and the assertion-enabled translation. Correspondence: real fields over array storage (converted into each layout), every coordinate written and everything read back after each write, positions relative to the storage base pairwise distinct and below the storage length, under ASan/UBSan with assertions, in -O2 -DNDEBUG and with -mbmi2.',
                 note=TB_KERNEL + ' The array backend itself (reference into m_ptr) is observed, not modelled. Axiom-free.'),
+    'C02': dict(cat='proof', tech='Coq proof on a hand reference interpreter + per-layer probe correspondence and sampled composition', ref='DESIGN.md section 6, C02',
+                text='Theorems (StackProofs.v, any scalar arithmetic): eval of a stack of any depth is its outermost layer applied to eval of the rest (eval_cons); a layer sees its backend only through at() (layer_parametric) so what lies beneath matters only through its kind and answers (eval_depends_only_on_backend); the one-line law of every layer over an arbitrary backend for any N and M (list lengths), the cast acting on the M output components, permutation identity and composition. Tie: every layer template over a recording probe backend for N, M in 1..4 independently (queries issued, in order, and values returned must equal the model layer) and the catalogue plus seeded random stacks from the grammar up to depth 5 evaluated at coordinates the model finds in-domain, in both at() forms, bit-exactly (floating-point results against the Flocq evaluation in the code\'s operation order).',
+                note='Stack.v (the interpreter) is hand-written and tied only by the correspondence run; a C++ layer template being parametric in its backend type is sampled, not proved. ' + TB_MODEL + ' The theorems are closed under the global context.'),
+    'C10': dict(cat='proof', tech='Coq proof on the model layer + correspondence under ASan with extreme coordinates', ref='DESIGN.md section 6, C10',
+                text='Theorems: for EVERY coordinate the clamp layer queries its backend inside the box, needing only irreflexivity of the order (clamp_in_box), which the IEEE order with infinities / signed zeros and the integer orders satisfy (flocq_lt_irrefl); identity inside the box; a clamp over row-major array storage with the box inside the extents reaches a flat position inside the storage for every coordinate (clamp_safe_over_array, with C01\'s rowmajor_range). Tie: clamp over identity / probe for N in 1..4 and int / unsigned / size_t / float / double coordinates at every type extreme, infinities, signed zeros, subnormals and each bound +- one step, judged by an independent std::clamp oracle and the model; clamp above and beneath interpolators over array storage under ASan+UBSan with assertions.',
+                note='std::clamp is modelled from its specification (lo if v<lo, hi if hi<v, else v; boxes with lo <= hi as the property states). ' + TB_MODEL + AX_REALS),
+    'C11': dict(cat='proof', tech='Coq proof over the translated kernel and the model layer + probe correspondence', ref='DESIGN.md section 6, C11',
+                text='Theorems: the kernel regenerated from backup.hpp on every run (loop with early return) returns the default with no backend query when some component is outside the closed box and queries the backend at the unchanged coordinate otherwise, for every integer coordinate type of 32..64 bits and every N (backup_at_refines); the model layer over an arbitrary backend and any order has the empty trace outside and is the backend inside (backup_outside / backup_inside / outside_spec); the kernel\'s test is the model\'s test on integer types. Tie: the layer over a recording probe backend for N, M in 1..4 independently and five coordinate types, at each bound, one step either side (nextafter), signed zeros, extremes, empty boxes, judged by an independent oracle (default and NO query / exactly one query at the coordinate) and the model; over array storage under ASan.',
+                note=TB_KERNEL + ' Floating coordinates are covered by the model layer and the correspondence, not by the translated kernel (CKernel has integer types only).' + AX_REALS),
     'C06': dict(cat='proof', tech='Coq proof on a hand model of the byte format + byte-exact correspondence', ref='DESIGN.md section 6, C06',
                 text='Theorems (BinIOProofs.v) for every stack of the layer grammar and every well-formed field, all bit patterns: the reader inverts the writer with any bytes following (load_dump), re-dumping the loaded field gives the same bytes (dump_load_dump), every well-formed field is serialisable (dump_total). The model writer/reader (BinIO.v) is tied to field::dump / field(std::istream&) and every layer\'s read_binary / write_binary byte for byte: for each stack of the catalogue (every serialisable layer in several positions + seeded random stacks) the implementation\'s dump must equal the model\'s bytes, its load must yield the model\'s configuration and storage, and its second dump the same bytes.',
                 note='BinIO.v, Stack.v, StackGlue.v are hand-written. ' + TB_MODEL + AX_REALS),
